@@ -178,8 +178,7 @@ def xmdOp (op : String) (a : List String) : Option (List String) :=
       let r := Hand.Slices.vetDST sha h0 ⟨0, off, len, len + spare⟩
       some [kv "b" (showBytes (r.1.getD 0 [])), kv "o" (showBytes (Hand.Slices.read r.1 r.2)),
             kv "fresh" (b2s (r.2.buf ≠ 0)),
-            kv "s_b" (showBytes back), kv "s_fresh" "1",
-            kv "s_o" (showBytes (Hand.Group.vetDSTXMD sha ((back.drop off).take len)))]
+            kv "s_b" (showBytes back), kv "s_fresh" "1"]
   | "TR.alts", [] =>
       let M : Nat := 2^61 - 1
       let hstr (s : String) : Nat := s.toList.foldl (fun a c => (a * 131 + c.toNat) % 2147483647) 7
